@@ -1,4 +1,5 @@
 """Per-property checks.  Each returns an exit code: 0 held, 1 violation(s) not listed as known."""
+import itertools
 import json
 import os
 import random
@@ -17,28 +18,87 @@ ASSUME_DYN = [
     "objects of abstract classes are passed too (the dyn harness can create them); the statement quantifies over dynamic classes",
 ]
 
+UNIVERSES_QUICK = [("GenReg_N4A1D3.cfg", 4, 1), ("GenReg_N4A2D2.cfg", 4, 2), ("GenReg_N3A3D2.cfg", 3, 3)]
+UNIVERSES_THOROUGH = UNIVERSES_QUICK + [("GenReg_N5A1D3.cfg", 5, 1), ("GenReg_N4A2D3.cfg", 4, 2), ("GenReg_N5A2D2.cfg", 5, 2),
+                                        ("GenReg_N3A3D3.cfg", 3, 3), ("GenReg_N3A4D2.cfg", 3, 4)]
+
 
 def edges_of(reg):
     return sorted((e[0], e[1]) for e in reg["edges"])
 
 
-def c01_scripts_from_universe(regs, n, arity, rng, policies, tagprefix, observe=("T", "CT")):
+def scripts_from_universe(regs, n, arity, rng, policies, tagprefix, observe, style="complete", noise=True,
+                          abstract_p=0.15, orders=None, shapes=None):
+    """One script (or several, one per registration order) per registry of a TLC-emitted universe."""
     scripts = []
     classes = list(range(1, n + 1))
     for i, reg in enumerate(regs):
-        shape = S.shape_for(arity, i)
+        shape = S.shape_for(arity, i) if not shapes else shapes[i % len(shapes)]
         methods = [(1, shape, list(reg["mvp"]))]
         defs = [(1, d, list(vp)) for d, vp in enumerate(reg["defs"])]
         # a noise uni-method on a random class perturbs slot allocation without changing the answer
-        if rng.random() < 0.5:
+        if noise and rng.random() < 0.5:
             methods.append((2, "V" if shape != "V" else "NV", [rng.choice(classes)]))
-        abstract = {c for c in classes if rng.random() < 0.15}
-        sc = S.registry_script("%s-%d" % (tagprefix, i), [[p] for p in policies], classes, edges_of(reg),
-                               methods, defs, abstract=abstract, style="complete", rng=rng, observe=observe)
-        scripts.append(sc)
+        abstract = {c for c in classes if rng.random() < abstract_p}
+        olist = [None] if orders is None else orders(reg, rng)
+        for k, o in enumerate(olist):
+            sid = "%s-%d" % (tagprefix, i) if o is None else "%s-%d.o%d" % (tagprefix, i, k)
+            st = style(rng) if callable(style) else style
+            scripts.append(S.registry_script(sid, [[p] for p in policies], classes, edges_of(reg), methods, defs,
+                                             abstract=abstract, style=st, rng=random.Random(rng.random()),
+                                             observe=observe, order=o))
     return scripts
 
 
+def random_scripts(rng, count, policies, observe, style="complete", max_n=12, orders=1, max_defs=6, abstract_p=None):
+    scs = []
+    for i in range(count):
+        n = rng.randrange(3, max_n + 1)
+        classes, edges, methods, defs, abstract, kind = S.random_registry(rng, n, rng.randrange(1, 4), 3 if n > 8 else 4, max_defs)
+        if not methods:
+            continue
+        if abstract_p is not None:
+            abstract = {c for c in classes if rng.random() < abstract_p}
+        pres_seed = rng.random()
+        for k in range(orders):
+            st = style(rng) if callable(style) else style
+            scs.append(S.registry_script("rnd-%d-%s%s" % (i, kind, "" if orders == 1 else ".o%d" % k), [[p] for p in policies],
+                                         classes, edges, methods, defs, abstract=abstract, style=st,
+                                         rng=random.Random(pres_seed), observe=observe,
+                                         order=None if orders == 1 and k == 0 else rng.randrange(1 << 30)))
+    return scs
+
+
+def mutate_first(kind, fn):
+    """Build a trace corruption: apply fn(event) to the first event of the given kind."""
+    def mut(lines):
+        for i, ln in enumerate(lines):
+            if ln.startswith('{"e":"%s"' % kind):
+                ev = json.loads(ln)
+                if fn(ev):
+                    lines[i] = json.dumps(ev, separators=(",", ":")) + "\n"
+                    return lines
+        return lines
+    return mut
+
+
+def drop_first(kind):
+    def mut(lines):
+        for i, ln in enumerate(lines):
+            if ln.startswith('{"e":"%s"' % kind):
+                return lines[:i] + lines[i + 1:]
+        return lines
+    return mut
+
+
+def flip_table_row(ev):
+    if ev["rows"]:
+        ev["rows"][0][1] = 0 if ev["rows"][0][1] != 0 else -1
+        return True
+    return False
+
+
+# ---------------------------------------------------------------------------
 def check_C01(tier, seed):
     TCFG = "TraceYomm2_dispatch.cfg"
     t0 = time.time()
@@ -46,43 +106,245 @@ def check_C01(tier, seed):
     rng = random.Random(seed)
     exe = C.build_dyn()
     policies = S.EAGER_POLICIES
-    universes = [("GenReg_N4A1D3.cfg", 4, 1), ("GenReg_N4A2D2.cfg", 4, 2), ("GenReg_N3A3D2.cfg", 3, 3)]
-    if tier == "thorough":
-        universes += [("GenReg_N5A1D3.cfg", 5, 1), ("GenReg_N4A2D3.cfg", 4, 2), ("GenReg_N5A2D2.cfg", 5, 2),
-                      ("GenReg_N3A3D3.cfg", 3, 3), ("GenReg_N3A4D2.cfg", 3, 4)]
+    universes = UNIVERSES_QUICK if tier == "quick" else UNIVERSES_THOROUGH
     for cfg, n, ar in universes:
         regs = F.gen_registries(cfg, out)
-        scs = c01_scripts_from_universe(regs, n, ar, rng, policies, cfg.replace(".cfg", ""))
+        scs = scripts_from_universe(regs, n, ar, rng, policies, cfg.replace(".cfg", ""), ("T", "CT"))
         F.execute_and_validate("C01", exe, scs, out, "c01-" + cfg, TCFG)
-    # V binding: random larger registries
-    nrand = 300 if tier == "quick" else 6000
-    scs = []
-    for i in range(nrand):
-        n = rng.randrange(3, 13)
-        classes, edges, methods, defs, abstract, kind = S.random_registry(rng, n, rng.randrange(1, 4), 3 if n > 8 else 4, 6)
-        if not methods:
-            continue
-        scs.append(S.registry_script("rnd-%d-%s" % (i, kind), [[p] for p in policies], classes, edges, methods, defs,
-                                     abstract=abstract, style="complete", rng=rng, observe=("T", "CT")))
+    scs = random_scripts(rng, 300 if tier == "quick" else 6000, policies, ("T", "CT"))
     F.execute_and_validate("C01", exe, scs, out, "c01-rnd", TCFG)
-
-    # negative control: flip one recorded outcome; TLC must reject
-    def flip(lines):
-        for i, ln in enumerate(lines):
-            if ln.startswith('{"e":"table"'):
-                ev = json.loads(ln)
-                if ev["rows"]:
-                    ev["rows"][0][1] = 0 if ev["rows"][0][1] != 0 else -1
-                    lines[i] = json.dumps(ev, separators=(",", ":")) + "\n"
-                    return lines
-        return lines
     if scs:
-        F.selftest_corruption(exe, scs[0], out, flip, "one outcome of a resolve table altered", TCFG)
+        F.selftest_corruption(exe, scs[0], out, mutate_first("table", flip_table_row), "one outcome of a resolve table altered", TCFG)
+        F.selftest_corruption(exe, scs[0], out, drop_first("def"), "one definition registration event dropped", TCFG)
     return F.report("C01", tier, seed, out, t0, LEVEL,
                     rule="a case = one registry (inheritance graph, methods with signature shapes, definitions) executed under one "
                          "policy configuration, all legal argument tuples resolved and called; distinct_nontrivial = distinct registries",
-                    assumptions=ASSUME_DYN, exhaustive=False,
+                    assumptions=ASSUME_DYN,
                     extra_cov={"policies": policies, "universes": [u[0] for u in universes], "random_registries": len(scs)})
 
 
-CHECKS = {"C01": check_C01}
+# ---------------------------------------------------------------------------
+def check_C02(tier, seed):
+    """Unresolvable calls: error record content, thrown exceptions leave dispatch intact, a returning handler aborts."""
+    TCFG = "TraceYomm2_err.cfg"
+    t0 = time.time()
+    out = F.Outcome("C02")
+    rng = random.Random(seed)
+    exe = C.build_dyn()
+    policies = S.EAGER_POLICIES   # vectored_error (std::function), backward-compatible call_error (old, dbg, rel, stdd, stdr), throw_error (thr)
+    universes = UNIVERSES_QUICK if tier == "quick" else UNIVERSES_THOROUGH
+    nregs = 0
+    for cfg, n, ar in universes:
+        regs = F.gen_registries(cfg, out)
+        # call table (errors thrown), then resolve table and call table again: later calls still dispatch
+        scs = scripts_from_universe(regs, n, ar, rng, policies, cfg.replace(".cfg", ""), ("CT", "T", "CT"))
+        F.execute_and_validate("C02", exe, scs, out, "c02-" + cfg, TCFG)
+        # handler that returns: the process must abort.  One script per sampled (registry, tuple).
+        ret_policies = [p for p in policies if p != "thr"]
+        sample = rng.sample(range(len(regs)), min(len(regs), 250 if tier == "quick" else 2000))
+        rs = []
+        for i in sample:
+            reg = regs[i]
+            anc = S.anc_closure(edges_of(reg), list(range(1, n + 1)))
+            t = [rng.choice([c for c in range(1, n + 1) if v in anc[c]]) for v in reg["mvp"]]
+            sc = scripts_from_universe([reg], n, ar, rng, [rng.choice(ret_policies)], "%s-ret%d" % (cfg.replace(".cfg", ""), i), (),
+                                       noise=False, shapes=[S.shape_for(ar, i)])[0]
+            sc.handler("return")
+            sc.call(1, t)
+            sc.call(1, t)   # never reached if the first call is an error: the process is gone
+            rs.append(sc)
+        F.execute_and_validate("C02", exe, rs, out, "c02-ret-" + cfg, TCFG)
+    scs = random_scripts(rng, 200 if tier == "quick" else 4000, policies, ("CT", "T"))
+    F.execute_and_validate("C02", exe, scs, out, "c02-rnd", TCFG)
+
+    def break_types(ev):
+        for row in ev["rows"]:
+            if row[1] < 0 and row[2][2]:
+                row[2][2][0] = 63
+                return True
+        return False
+
+    def break_then(ev):
+        if ev.get("then") == "aborted":
+            ev["then"] = "thrown"
+            return True
+        return False
+    errsc = [s for s in scs]
+    done = 0
+    for s in errsc[:40]:
+        if F.selftest_corruption(exe, s, out, mutate_first("ctable", break_types), "type id in a recorded error record altered", TCFG) is not None:
+            done += 1
+            break
+    aborted = out.action_counts.get("died", 0)
+    if aborted == 0:
+        raise C.ToolFailure("vacuous: no handler-returns execution reached an error")
+    return F.report("C02", tier, seed, out, t0, LEVEL,
+                    rule="a case = one registry executed under one error-handling configuration: every legal tuple called, error records "
+                         "compared with ErrorRecord(status, arity, types of the virtual arguments); plus sampled (registry, tuple) calls under a "
+                         "handler that returns (process must die with SIGABRT); distinct_nontrivial = distinct scripts",
+                    assumptions=ASSUME_DYN,
+                    extra_cov={"policies": policies, "aborted_executions": aborted,
+                               "universes": [u[0] for u in universes]})
+
+
+# ---------------------------------------------------------------------------
+def check_C03(tier, seed):
+    TCFG = "TraceYomm2_dispatch.cfg"
+    t0 = time.time()
+    out = F.Outcome("C03")
+    rng = random.Random(seed)
+    exe = C.build_dyn()
+    policies = ["fast", "chk", "vec", "map", "ind", "old", "prj", "stdd", "stdmap"]
+    universes = [("GenReg_N4A1D3.cfg", 4, 1), ("GenReg_N4A2D3.cfg", 4, 2), ("GenReg_N3A3D3.cfg", 3, 3)]
+    if tier == "thorough":
+        universes += [("GenReg_N5A1D3.cfg", 5, 1), ("GenReg_N5A2D2.cfg", 5, 2), ("GenReg_N3A4D2.cfg", 3, 4)]
+    for cfg, n, ar in universes:
+        regs = F.gen_registries(cfg, out)
+        scs = scripts_from_universe(regs, n, ar, rng, policies, cfg.replace(".cfg", ""), ("X",))
+        F.execute_and_validate("C03", exe, scs, out, "c03-" + cfg, TCFG)
+    scs = random_scripts(rng, 300 if tier == "quick" else 6000, policies, ("X",), max_defs=9)
+    # histories: next is recomputed by every update
+    hs = []
+    for i in range(150 if tier == "quick" else 3000):
+        n = rng.randrange(3, 9)
+        classes, edges, methods, defs, abstract, kind = S.random_registry(rng, n, 2, 3, 8)
+        if not methods or not defs:
+            continue
+        sc = S.Script("hist-%d-%s" % (i, kind), [[p] for p in policies])
+        for c, bases in S.presentation("complete", classes, edges, rng):
+            sc.cls(c, bases)
+        for m, shape, vp in methods:
+            sc.method(m, shape, vp)
+        live = []
+        pending = list(defs)
+        rng.shuffle(pending)
+        for step in range(rng.randrange(2, 6)):
+            for _ in range(rng.randrange(1, 4)):
+                if pending and (not live or rng.random() < 0.65):
+                    d = pending.pop()
+                    sc.defn(*d)
+                    live.append(d)
+                elif live:
+                    d = live.pop(rng.randrange(len(live)))
+                    sc.undef(d[0], d[1])
+                    pending.append(d)
+            sc.update()
+            for m, shape, vp in methods:
+                sc.nexts(m)
+        hs.append(sc)
+    F.execute_and_validate("C03", exe, scs + hs, out, "c03-rnd", TCFG)
+
+    def flip_next(ev):
+        if ev["rows"]:
+            ev["rows"][0][1] = -1 if ev["rows"][0][1] != -1 else -2
+            return True
+        return False
+    for s in scs[:30]:
+        if F.selftest_corruption(exe, s, out, mutate_first("next", flip_next), "one recorded next target altered", TCFG) is not None:
+            break
+    return F.report("C03", tier, seed, out, t0, LEVEL,
+                    rule="a case = one registry (or registration history) under one policy: after each update the next slot of every "
+                         "definition is observed by pointer identity and by calling through it with objects of exactly the definition's classes; "
+                         "distinct_nontrivial = distinct scripts",
+                    assumptions=ASSUME_DYN, extra_cov={"policies": policies, "histories": len(hs)})
+
+
+# ---------------------------------------------------------------------------
+def all_orders(limit):
+    def f(reg, rng):
+        # an order is a seed for the shuffles of class records, methods and definitions
+        return [None] + [rng.randrange(1 << 30) for _ in range(limit - 1)]
+    return f
+
+
+def check_C06(tier, seed):
+    TCFG = "TraceYomm2_dispatch.cfg"
+    t0 = time.time()
+    out = F.Outcome("C06")
+    rng = random.Random(seed)
+    exe = C.build_dyn()
+    policies = ["fast", "chk", "vec", "map", "ind", "prj", "stdr"]
+    universes = [("GenReg_N4A1D3.cfg", 4, 1, 4), ("GenReg_N4A2D2.cfg", 4, 2, 3), ("GenReg_N3A3D2.cfg", 3, 3, 2)]
+    if tier == "thorough":
+        universes = [("GenReg_N4A1D3.cfg", 4, 1, 12), ("GenReg_N4A2D3.cfg", 4, 2, 8), ("GenReg_N3A3D3.cfg", 3, 3, 8),
+                     ("GenReg_N5A2D2.cfg", 5, 2, 4), ("GenReg_N5A1D3.cfg", 5, 1, 4)]
+    for cfg, n, ar, k in universes:
+        regs = F.gen_registries(cfg, out)
+        scs = scripts_from_universe(regs, n, ar, rng, policies, cfg.replace(".cfg", ""), ("T", "X"), orders=all_orders(k))
+        F.execute_and_validate("C06", exe, scs, out, "c06-" + cfg, TCFG)
+    # the 5-class lattice on which 'more specific' is not transitive: every definition set <= 3, every order
+    regs = F.gen_registries("GenRegD2.cfg", out)
+    scs = []
+    for i, reg in enumerate(regs):
+        defs0 = [(1, d, list(vp)) for d, vp in enumerate(reg["defs"])]
+        for k, perm in enumerate(itertools.permutations(defs0)):
+            sc = S.registry_script("d2lat-%d.p%d" % (i, k), [[p] for p in ["fast", "vec", "map"]], list(range(1, 6)), edges_of(reg),
+                                   [(1, "VV", list(reg["mvp"]))], list(perm), observe=("T", "X"))
+            scs.append(sc)
+    F.execute_and_validate("C06", exe, scs, out, "c06-d2", TCFG)
+    scs = random_scripts(rng, 100 if tier == "quick" else 1500, policies, ("T", "X"), orders=6 if tier == "quick" else 20, max_defs=8)
+    F.execute_and_validate("C06", exe, scs, out, "c06-rnd", TCFG)
+    if scs:
+        F.selftest_corruption(exe, scs[1], out, mutate_first("table", flip_table_row), "one outcome altered in a permuted registration", TCFG)
+    return F.report("C06", tier, seed, out, t0, LEVEL,
+                    rule="a case = one registration order (shuffle of class records, methods, definitions) of one registry under one policy; "
+                         "outcome tables and next targets are validated against the order-free oracle, so any two orders of a registry agree; "
+                         "distinct_nontrivial = distinct (registry, order) scripts",
+                    assumptions=ASSUME_DYN, extra_cov={"policies": policies})
+
+
+# ---------------------------------------------------------------------------
+def check_C17(tier, seed):
+    TCFG = "TraceYomm2_report.cfg"
+    t0 = time.time()
+    out = F.Outcome("C17")
+    rng = random.Random(seed)
+    exe = C.build_dyn()
+    policies = ["fast", "vec", "map", "stdd"]
+    universes = UNIVERSES_QUICK if tier == "quick" else UNIVERSES_THOROUGH
+    for cfg, n, ar in universes:
+        regs = F.gen_registries(cfg, out)
+        scs = []
+        classes = list(range(1, n + 1))
+        for i, reg in enumerate(regs):
+            # every assignment of abstract flags for small universes, a sample otherwise
+            if tier == "thorough" or n <= 3:
+                masks = range(1 << n)
+            else:
+                masks = sorted(set([0] + [rng.randrange(1 << n) for _ in range(3)]))
+            for mask in masks:
+                abstract = {c for c in classes if mask >> (c - 1) & 1}
+                methods = [(1, S.shape_for(ar, i), list(reg["mvp"]))]
+                if rng.random() < 0.4:
+                    methods.append((2, "VV" if ar != 2 else "VVV", [rng.choice(classes) for _ in range(2 if ar != 2 else 3)]))
+                defs = [(1, d, list(vp)) for d, vp in enumerate(reg["defs"])]
+                scs.append(S.registry_script("%s-%d.a%d" % (cfg.replace(".cfg", ""), i, mask), [[p] for p in policies], classes,
+                                             edges_of(reg), methods, defs, abstract=abstract, observe=()))
+        F.execute_and_validate("C17", exe, scs, out, "c17-" + cfg, TCFG)
+    scs = random_scripts(rng, 300 if tier == "quick" else 5000, policies, (), max_n=9, abstract_p=0.35)
+    F.execute_and_validate("C17", exe, scs, out, "c17-rnd", TCFG)
+
+    def flip_report(ev):
+        if ev.get("res") == "ok":
+            ev["rep"]["not_implemented"] = 0 if ev["rep"]["not_implemented"] else 1
+            return True
+        return False
+
+    def flip_cells(ev):
+        if ev.get("res") == "ok" and ev["rep"]["cells"]:
+            ev["rep"]["cells"] += 1
+            return True
+        return False
+    if scs:
+        F.selftest_corruption(exe, scs[0], out, mutate_first("update", flip_report), "not_implemented flag of a recorded report flipped", TCFG)
+        for s in scs[:50]:
+            if F.selftest_corruption(exe, s, out, mutate_first("update", flip_cells), "cell count of a recorded report altered", TCFG) is not None:
+                break
+    return F.report("C17", tier, seed, out, t0, LEVEL,
+                    rule="a case = one registry with one assignment of abstract flags, updated under one policy; the returned report is "
+                         "compared with HasGap / HasAmbiguity over all tuples and over concrete-only tuples, and cells with the number of "
+                         "multi-method cells the compiler object holds; distinct_nontrivial = distinct scripts",
+                    assumptions=ASSUME_DYN, extra_cov={"policies": policies})
+
+
+CHECKS = {"C01": check_C01, "C02": check_C02, "C03": check_C03, "C06": check_C06, "C17": check_C17}
